@@ -44,22 +44,29 @@ Fixpoint items_from (n : N) (cs : list (bytes * node)) : list item :=
   | nc :: r => (n, block_len nc, sip_hash (fst nc)) :: items_from (n + block_len nc) r
   end.
 
+(* the children tar() writes something for: FIFOs and sockets are skipped before anything is written *)
+Definition kept (cs : list (bytes * node)) : list (bytes * node) :=
+  filter (fun nc => negb (is_other (snd nc))) cs.
+
 Lemma tar_children_eq cs : forall n items,
-  tar_children tar_node cs n items = (flat_map block cs, n + blocks_len cs, items ++ items_from n cs).
+  tar_children TarFixed tar_node cs n items =
+    (flat_map block (kept cs), n + blocks_len (kept cs), items ++ items_from n (kept cs)).
 Proof.
   induction cs as [|[name c] rest IH]; intros n items.
-  - cbn [tar_children flat_map blocks_len fold_right items_from]. rewrite app_nil_r. f_equal. f_equal. lia.
-  - cbn [tar_children]. destruct (tar_node c) as [ce cn] eqn:Ec.
+  - cbn [kept filter tar_children flat_map blocks_len fold_right items_from]. rewrite app_nil_r. f_equal. f_equal. lia.
+  - cbn [tar_children]. unfold kept. cbn [filter snd]. fold (kept rest).
+    destruct (is_other c) eqn:Eo; cbn [negb]; [apply IH|].
+    destruct (tar_node c) as [ce cn] eqn:Ec.
     rewrite IH. cbn [flat_map blocks_len fold_right items_from fst snd].
-    fold (blocks_len rest).
+    fold (blocks_len (kept rest)).
     assert (Eb : block (name, c) = filename_elem name :: ce).
     { unfold block, tar_model. cbn [fst snd]. rewrite Ec. reflexivity. }
     assert (El : block_len (name, c) = enc_len (filename_elem name) + cn).
     { unfold block_len. cbn [fst snd]. rewrite Ec. reflexivity. }
     rewrite Eb, El. rewrite <- app_assoc. cbn [app].
     replace (n + enc_len (filename_elem name) + cn - n) with (enc_len (filename_elem name) + cn) by lia.
-    replace (n + enc_len (filename_elem name) + cn + blocks_len rest)
-       with (n + (enc_len (filename_elem name) + cn + blocks_len rest)) by lia.
+    replace (n + enc_len (filename_elem name) + cn + blocks_len (kept rest))
+       with (n + (enc_len (filename_elem name) + cn + blocks_len (kept rest))) by lia.
     replace (n + enc_len (filename_elem name) + cn) with (n + (enc_len (filename_elem name) + cn)) by lia.
     reflexivity.
 Qed.
@@ -79,10 +86,21 @@ Definition dir_goodbye (t : node) (cs : list (bytes * node)) : elem :=
 
 Lemma tar_node_dir m xs cs :
   tar_node (NDir m xs cs) =
-    (head_elems (NDir m xs cs) ++ flat_map block cs ++ [dir_goodbye (NDir m xs cs) cs],
-     elems_len (head_elems (NDir m xs cs)) + blocks_len cs + enc_len (dir_goodbye (NDir m xs cs) cs)).
+    (head_elems (NDir m xs cs) ++ flat_map block (kept cs) ++ [dir_goodbye (NDir m xs cs) (kept cs)],
+     elems_len (head_elems (NDir m xs cs)) + blocks_len (kept cs) + enc_len (dir_goodbye (NDir m xs cs) (kept cs))).
 Proof.
-  cbn [tar_node]. rewrite tar_children_eq. cbn [app]. reflexivity.
+  unfold tar_node. cbn [tar_node_v]. change (tar_node_v TarFixed) with tar_node.
+  rewrite tar_children_eq. cbn [app]. reflexivity.
+Qed.
+
+Lemma Forall_kept {P : bytes * node -> Prop} cs : Forall P cs -> Forall P (kept cs).
+Proof.
+  intros H. apply Forall_forall. intros x Hx. apply filter_In in Hx. rewrite Forall_forall in H. apply H. tauto.
+Qed.
+
+Lemma kept_not_other cs : Forall (fun nc => is_other (snd nc) = false) (kept cs).
+Proof.
+  apply Forall_forall. intros x Hx. apply filter_In in Hx. destruct Hx as [_ H]. now apply negb_true_iff in H.
 Qed.
 
 Lemma elems_len_app a b : elems_len (a ++ b) = elems_len a + elems_len b.
@@ -100,14 +118,15 @@ Theorem tar_counter : forall t, snd (tar_node t) = elems_len (tar_model t).
 Proof.
   unfold tar_model. induction t as [m xs cs IH| | | |] using node_ind'.
   - rewrite tar_node_dir. cbn [fst snd]. rewrite !elems_len_app. cbn [elems_len fold_right].
-    assert (E : blocks_len cs = elems_len (flat_map block cs)).
+    apply (@Forall_kept (fun nc => snd (tar_node (snd nc)) = elems_len (fst (tar_node (snd nc))))) in IH.
+    assert (E : blocks_len (kept cs) = elems_len (flat_map block (kept cs))).
     { induction IH as [|nc r Hnc _ IHr]; [reflexivity|].
       cbn [blocks_len flat_map fold_right]. fold (blocks_len r). rewrite elems_len_app, <- IHr.
       unfold block_len, block. cbn [elems_len fold_right]. unfold tar_model. rewrite Hnc. reflexivity. }
     rewrite E. lia.
-  - cbn [tar_node fst snd]. rewrite elems_len_app. cbn [elems_len fold_right]. lia.
-  - cbn [tar_node fst snd]. rewrite elems_len_app. cbn [elems_len fold_right]. lia.
-  - cbn [tar_node fst snd]. rewrite elems_len_app. cbn [elems_len fold_right]. lia.
+  - cbn [tar_node tar_node_v fst snd]. rewrite elems_len_app. cbn [elems_len fold_right]. lia.
+  - cbn [tar_node tar_node_v fst snd]. rewrite elems_len_app. cbn [elems_len fold_right]. lia.
+  - cbn [tar_node tar_node_v fst snd]. rewrite elems_len_app. cbn [elems_len fold_right]. lia.
   - reflexivity.
 Qed.
 
@@ -135,18 +154,24 @@ Fixpoint ascending (prev : option bytes) (keys : list bytes) : Prop :=
 (* A tree as the disk source delivers it: permission bits below 010000, ids and times 64-bit, xattr
    names non-empty without NUL and (as a map has them) pairwise different -- given in ascending
    order --, child names valid and ascending, symlink targets non-empty without NUL, no FIFO / socket. *)
-Inductive good : node -> Prop :=
-| good_dir m xs cs : good_meta m -> Forall good_xattr xs -> ascending None (map fst xs) ->
-    Forall (fun nc : bytes * node => valid_name (fst nc) = true /\ good (snd nc)) cs ->
-    ascending None (map fst cs) -> good (NDir m xs cs)
-| good_file m xs d : good_meta m -> Forall good_xattr xs -> ascending None (map fst xs) ->
-    lenN d <= MaxInt64 -> good (NFile m xs d)
-| good_sym m xs tg : good_meta m -> Forall good_xattr xs -> ascending None (map fst xs) ->
-    has_nul tg = false -> 1 <= lenN tg -> lenN tg + 1 <= MaxInt64 -> good (NSymlink m xs tg)
-| good_dev m xs c ma mi : good_meta m -> Forall good_xattr xs -> ascending None (map fst xs) ->
-    w64 ma -> w64 mi -> good (NDevice m xs c ma mi).
+Definition ascending_if (ord : bool) (prev : option bytes) (keys : list bytes) : Prop :=
+  ord = true -> ascending prev keys.
 
-Lemma good_head t : good t ->
+(* [good ord t]; ord = true: child names ascending (the disk source); ord = false: any order (a tar
+   stream).  A FIFO or socket may sit in any directory (tar() skips it), not at the root. *)
+Inductive good (ord : bool) : node -> Prop :=
+| good_dir m xs cs : good_meta m -> Forall good_xattr xs -> ascending None (map fst xs) ->
+    Forall (fun nc : bytes * node => valid_name (fst nc) = true /\
+                                     (is_other (snd nc) = true \/ good ord (snd nc))) cs ->
+    ascending_if ord None (map fst cs) -> good ord (NDir m xs cs)
+| good_file m xs d : good_meta m -> Forall good_xattr xs -> ascending None (map fst xs) ->
+    lenN d <= MaxInt64 -> good ord (NFile m xs d)
+| good_sym m xs tg : good_meta m -> Forall good_xattr xs -> ascending None (map fst xs) ->
+    has_nul tg = false -> 1 <= lenN tg -> lenN tg + 1 <= MaxInt64 -> good ord (NSymlink m xs tg)
+| good_dev m xs c ma mi : good_meta m -> Forall good_xattr xs -> ascending None (map fst xs) ->
+    w64 ma -> w64 mi -> good ord (NDevice m xs c ma mi).
+
+Lemma good_head ord t : good ord t ->
   good_meta (node_meta t) /\ Forall good_xattr (node_xattrs t) /\ ascending None (map fst (node_xattrs t)).
 Proof. destruct 1; cbn [node_meta node_xattrs]; auto. Qed.
 
@@ -157,6 +182,39 @@ Lemma bytes_ltb_asym a : forall b, bytes_ltb a b = true -> bytes_ltb b a = false
 Proof.
   induction a as [|x a IH]; intros [|y b] H; cbn [bytes_ltb] in *; try discriminate; try reflexivity.
   destruct (N.ltb_spec x y); destruct (N.ltb_spec y x); try lia; try reflexivity; try discriminate; auto.
+Qed.
+
+Lemma bytes_ltb_trans a : forall b c, bytes_ltb a b = true -> bytes_ltb b c = true -> bytes_ltb a c = true.
+Proof.
+  induction a as [|x a IH]; intros [|y b] [|z c] H1 H2; cbn [bytes_ltb] in *; try discriminate; try reflexivity.
+  destruct (N.ltb_spec x y); destruct (N.ltb_spec y x); destruct (N.ltb_spec y z); destruct (N.ltb_spec z y);
+    destruct (N.ltb_spec x z); destruct (N.ltb_spec z x); try lia; try reflexivity; try discriminate.
+  eapply IH; eassumption.
+Qed.
+
+Lemma ascending_lower a b keys : bytes_ltb a b = true -> ascending (Some b) keys -> ascending (Some a) keys.
+Proof.
+  destruct keys as [|k r]; cbn [ascending]; [trivial|]. intros Hab [Hbk Hr]. split; [|exact Hr].
+  eapply bytes_ltb_trans; eassumption.
+Qed.
+
+Lemma ascending_kept cs : forall prev, ascending prev (map fst cs) -> ascending prev (map fst (kept cs)).
+Proof.
+  induction cs as [|nc r IH]; intros prev H; [exact H|].
+  cbn [map ascending] in H. destruct H as [Hp Hr]. unfold kept. cbn [filter]. fold (kept r).
+  destruct (negb (is_other (snd nc))).
+  - cbn [map ascending]. split; [exact Hp|]. apply IH. exact Hr.
+  - apply IH. destruct prev as [p|]; [exact (ascending_lower _ _ _ Hp Hr)|exact (ascending_weaken _ _ Hr)].
+Qed.
+
+Lemma good_dir_kept ord m xs cs : good ord (NDir m xs cs) ->
+  Forall (fun nc : bytes * node => valid_name (fst nc) = true /\ good ord (snd nc)) (kept cs) /\
+  ascending_if ord None (map fst (kept cs)).
+Proof.
+  intros H. inversion H as [? ? ? _ _ _ Hcs Hasc| | |]; subst. split.
+  - apply Forall_forall. intros nc Hin. apply filter_In in Hin. destruct Hin as [Hin Hk].
+    rewrite Forall_forall in Hcs. destruct (Hcs nc Hin) as [Hv [Ho|Hg]]; [rewrite Ho in Hk; discriminate|auto].
+  - intros E. apply ascending_kept. exact (Hasc E).
 Qed.
 
 Lemma sort_xattrs_sorted xs : ascending None (map fst xs) -> sort_xattrs xs = xs.
@@ -196,9 +254,9 @@ Proof.
   split; [reflexivity|lia].
 Qed.
 
-Lemma wf_head t : good t -> Forall wf_elem (head_elems t).
+Lemma wf_head ord t : good ord t -> Forall wf_elem (head_elems t).
 Proof.
-  intros H. destruct (good_head t H) as (Hm & Hx & Ha). unfold head_elems.
+  intros H. destruct (good_head ord t H) as (Hm & Hx & Ha). unfold head_elems.
   constructor; [apply wf_entry; exact Hm|].
   rewrite (sort_xattrs_sorted _ Ha). apply Forall_map. eapply Forall_impl; [|exact Hx]. apply wf_xattr.
 Qed.
@@ -257,22 +315,23 @@ Proof.
     unfold w64. clearbody n table. repeat split; try lia; try reflexivity.
 Qed.
 
-Theorem tar_wf : forall t, good t -> snd (tar_node t) < two64 -> Forall wf_elem (tar_model t).
+Theorem tar_wf : forall ord t, good ord t -> snd (tar_node t) < two64 -> Forall wf_elem (tar_model t).
 Proof.
-  unfold tar_model. induction t as [m xs cs IH| | | |] using node_ind'; intros Hg Hb.
+  intros ord. unfold tar_model. induction t as [m xs cs IH| | | |] using node_ind'; intros Hg Hb.
   - rewrite tar_node_dir in *. cbn [fst snd] in *.
-    pose proof (wf_head _ Hg) as Hh.
-    inversion Hg as [? ? ? _ _ _ Hcs _| | |]; subst.
+    pose proof (wf_head _ _ Hg) as Hh.
+    destruct (good_dir_kept _ _ _ _ Hg) as [Hcs _].
+    apply Forall_kept in IH.
     apply Forall_app. split; [exact Hh|]. apply Forall_app. split.
     + apply Forall_flat_map. rewrite Forall_forall in *. intros nc Hin.
       destruct (Hcs nc Hin) as [Hn Hgc]. unfold block. constructor; [apply wf_filename; exact Hn|].
-      apply (IH nc Hin Hgc). pose proof (block_len_le nc cs Hin). unfold block_len in *. lia.
+      apply (IH nc Hin Hgc). pose proof (block_len_le nc (kept cs) Hin). unfold block_len in *. lia.
     + constructor; [|constructor]. apply wf_dir_goodbye. exact Hb.
-  - cbn [tar_node fst snd] in *. apply Forall_app. split; [apply wf_head; exact Hg|].
+  - cbn [tar_node tar_node_v fst snd] in *. apply Forall_app. split; [apply (wf_head ord); exact Hg|].
     inversion Hg; subst. constructor; [|constructor]. cbn [wf_elem]. split; [reflexivity|assumption].
-  - cbn [tar_node fst snd] in *. apply Forall_app. split; [apply wf_head; exact Hg|].
+  - cbn [tar_node tar_node_v fst snd] in *. apply Forall_app. split; [apply (wf_head ord); exact Hg|].
     inversion Hg; subst. constructor; [|constructor]. cbn [wf_elem]. unfold wf_string. split; [reflexivity|assumption].
-  - cbn [tar_node fst snd] in *. apply Forall_app. split; [apply wf_head; exact Hg|].
+  - cbn [tar_node tar_node_v fst snd] in *. apply Forall_app. split; [apply (wf_head ord); exact Hg|].
     inversion Hg; subst. constructor; [|constructor]. cbn [wf_elem]. repeat split; assumption.
   - inversion Hg.
 Qed.
@@ -398,9 +457,9 @@ Proof.
     rewrite E2. rewrite E. reflexivity.
 Qed.
 
-Definition parse_prop (t : node) : Prop := good t -> forall fuel p rest,
+Definition parse_prop (ord : bool) (t : node) : Prop := good ord t -> forall fuel p rest,
   (length (tar_model t) < fuel)%nat ->
-  parse_node fuel (posd p (tar_model t) ++ rest) = Some (casync_view t, p + elems_len (tar_model t), rest).
+  parse_node ord fuel (posd p (tar_model t) ++ rest) = Some (casync_view t, p + elems_len (tar_model t), rest).
 
 Fixpoint seen_from (p : N) (cs : list (bytes * node)) : list seen :=
   match cs with
@@ -408,28 +467,28 @@ Fixpoint seen_from (p : N) (cs : list (bytes * node)) : list seen :=
   | nc :: r => (fst nc, p, p + block_len nc, casync_view (snd nc)) :: seen_from (p + block_len nc) r
   end.
 
-Lemma parse_children_S_filename f fs fe name l1 es m xs prev acc :
-  parse_children (S f) ((fs, fe, filename_elem name) :: l1) es m xs prev acc =
+Lemma parse_children_S_filename ord f fs fe name l1 es m xs prev acc :
+  parse_children ord (S f) ((fs, fe, filename_elem name) :: l1) es m xs prev acc =
     if negb (valid_name name) then None
-    else if negb (match prev with None => true | Some p => bytes_ltb p name end) then None
-    else match parse_node f l1 with
-         | Some (c, cend, l2) => parse_children f l2 es m xs (Some name) (acc ++ [(name, fs, cend, c)])
+    else if negb (order_ok ord prev name) then None
+    else match parse_node ord f l1 with
+         | Some (c, cend, l2) => parse_children ord f l2 es m xs (Some name) (acc ++ [(name, fs, cend, c)])
          | None => None
          end.
 Proof. reflexivity. Qed.
 
-Lemma parse_children_S_goodbye f gs ge h items l2 es m xs prev acc :
-  parse_children (S f) ((gs, ge, Goodbye h items) :: l2) es m xs prev acc =
+Lemma parse_children_S_goodbye ord f gs ge h items l2 es m xs prev acc :
+  parse_children ord (S f) ((gs, ge, Goodbye h items) :: l2) es m xs prev acc =
     if check_goodbye es gs ge items acc then Some (NDir m xs (map seen_child acc), ge, l2) else None.
 Proof. reflexivity. Qed.
 
-Lemma parse_children_ok cs :
-  Forall (fun nc : bytes * node => parse_prop (snd nc)) cs ->
-  Forall (fun nc : bytes * node => valid_name (fst nc) = true /\ good (snd nc)) cs ->
-  forall prev, ascending prev (map fst cs) ->
+Lemma parse_children_ok ord cs :
+  Forall (fun nc : bytes * node => parse_prop ord (snd nc)) cs ->
+  Forall (fun nc : bytes * node => valid_name (fst nc) = true /\ good ord (snd nc)) cs ->
+  forall prev, ascending_if ord prev (map fst cs) ->
   forall fuel p acc h gitems rest es m xs,
    (length (flat_map block cs) + 1 < fuel)%nat ->
-   parse_children fuel (posd p (flat_map block cs ++ [Goodbye h gitems]) ++ rest) es m xs prev acc =
+   parse_children ord fuel (posd p (flat_map block cs ++ [Goodbye h gitems]) ++ rest) es m xs prev acc =
      if check_goodbye es (p + blocks_len cs) (p + blocks_len cs + enc_len (Goodbye h gitems)) gitems (acc ++ seen_from p cs)
      then Some (NDir m xs (map seen_child (acc ++ seen_from p cs)),
                 p + blocks_len cs + enc_len (Goodbye h gitems), rest)
@@ -439,16 +498,18 @@ Proof.
   - cbn [flat_map app posd blocks_len fold_right seen_from]. rewrite app_nil_r, N.add_0_r.
     destruct fuel as [|f]; [lia|]. apply parse_children_S_goodbye.
   - inversion Hg as [|? ? [Hvn Hgc] Hg']; subst.
-    cbn [map ascending] in Ha. destruct Ha as [Hprev Ha].
+    assert (Hprev : order_ok ord prev (fst nc) = true).
+    { unfold order_ok. destruct ord; [|reflexivity]. cbn [negb orb]. specialize (Ha eq_refl).
+      cbn [map ascending] in Ha. destruct Ha as [Hp _]. destruct prev; [exact Hp|reflexivity]. }
+    assert (Ha' : ascending_if ord (Some (fst nc)) (map fst r)).
+    { intros E. specialize (Ha E). cbn [map ascending] in Ha. tauto. }
     destruct fuel as [|f]; [lia|].
     cbn [flat_map]. unfold block at 1. cbn [app posd]. rewrite <- !app_assoc. rewrite posd_app. rewrite <- app_assoc.
     rewrite parse_children_S_filename. rewrite Hvn. cbn [negb].
-    assert (E2 : negb (match prev with None => true | Some p0 => bytes_ltb p0 (fst nc) end) = false).
-    { destruct prev; [rewrite Hprev|]; reflexivity. }
-    rewrite E2.
+    rewrite Hprev. cbn [negb].
     cbn [flat_map length] in Hf. rewrite app_length in Hf. unfold block in Hf at 1. cbn [length] in Hf.
     rewrite (Hnc Hgc f) by lia.
-    rewrite (IH Hg' (Some (fst nc)) Ha f) by lia.
+    rewrite (IH Hg' (Some (fst nc)) Ha' f) by lia.
     cbn [blocks_len fold_right seen_from]. fold (blocks_len r).
     assert (Ep : p + enc_len (filename_elem (fst nc)) + elems_len (tar_model (snd nc)) = p + block_len nc).
     { unfold block_len. rewrite tar_counter. lia. }
@@ -505,8 +566,8 @@ Proof.
 Qed.
 
 (* ---------- the reader returns the tree ---------- *)
-Lemma parse_node_S_entry f es ee t l1 :
-  parse_node (S f) ((es, ee, entry_elem t) :: l1) =
+Lemma parse_node_S_entry ord f es ee t l1 :
+  parse_node ord (S f) ((es, ee, entry_elem t) :: l1) =
     let mode := type_bits t + m_perm (node_meta t) in
     if negb ((TarFeatureFlags =? TarFeatureFlags) && (0 =? 0)) then None
     else
@@ -534,16 +595,16 @@ Lemma parse_node_S_entry f es ee t l1 :
               | _ => None
               end
             else if (ty =? S_IFIFO) || (ty =? S_IFSOCK) then Some (NOther m xs (ty =? S_IFSOCK), le, l2)
-            else if ty =? S_IFDIR then parse_children f l2 es m xs None []
+            else if ty =? S_IFDIR then parse_children ord f l2 es m xs None []
             else None
         end.
 Proof. reflexivity. Qed.
 
 (* what the reader sees after the entry of a good node, up to the point where the node types differ *)
-Lemma parse_head t tail_elems f p rest : good t ->
+Lemma parse_head ord t tail_elems f p rest : good ord t ->
   not_xattr_head (posd (p + elems_len (head_elems t)) tail_elems ++ rest) ->
   exists le,
-  parse_node (S f) (posd p (head_elems t ++ tail_elems) ++ rest) =
+  parse_node ord (S f) (posd p (head_elems t ++ tail_elems) ++ rest) =
     let ty := type_bits t in
     let m := node_meta t in
     let xs := map view_x (node_xattrs t) in
@@ -565,10 +626,10 @@ Lemma parse_head t tail_elems f p rest : good t ->
       | _ => None
       end
     else if (ty =? S_IFIFO) || (ty =? S_IFSOCK) then Some (NOther m xs (ty =? S_IFSOCK), le, l2)
-    else if ty =? S_IFDIR then parse_children f l2 p m xs None []
+    else if ty =? S_IFDIR then parse_children ord f l2 p m xs None []
     else None.
 Proof.
-  intros Hg Hnx. destruct (good_head t Hg) as (Hm & Hx & Ha).
+  intros Hg Hnx. destruct (good_head ord t Hg) as (Hm & Hx & Ha).
   destruct Hm as (Hperm & _).
   destruct (mode_split (type_bits t) (m_perm (node_meta t)) (type_bits_in t) Hperm) as (Ety & Eperm).
   unfold head_elems. rewrite (sort_xattrs_sorted _ Ha).
@@ -593,15 +654,23 @@ Lemma seen_children cs : forall p,
   map seen_child (seen_from p cs) = map (fun nc : bytes * node => (fst nc, casync_view (snd nc))) cs.
 Proof. induction cs as [|nc r IH]; intros p; [reflexivity|]. cbn [seen_from map seen_child]. rewrite IH. reflexivity. Qed.
 
-Theorem parse_ok : forall t, parse_prop t.
+Lemma view_children cs :
+  flat_map (fun nc : bytes * node => if is_other (snd nc) then [] else [(fst nc, casync_view (snd nc))]) cs =
+  map (fun nc : bytes * node => (fst nc, casync_view (snd nc))) (kept cs).
 Proof.
-  induction t as [m xs cs IH|m xs d|m xs tg|m xs c ma mi|m xs s] using node_ind'; intros Hg fuel p rest Hf.
+  induction cs as [|nc r IH]; [reflexivity|]. cbn [flat_map]. unfold kept. cbn [filter]. fold (kept r).
+  destruct (is_other (snd nc)); cbn [negb app map]; rewrite IH; reflexivity.
+Qed.
+
+Theorem parse_ok : forall ord t, parse_prop ord t.
+Proof.
+  intros ord. induction t as [m xs cs IH|m xs d|m xs tg|m xs c ma mi|m xs s] using node_ind'; intros Hg fuel p rest Hf.
   - (* directory *)
     unfold tar_model in *. rewrite tar_node_dir in *. cbn [fst] in *.
     destruct fuel as [|f]; [lia|].
     set (t := NDir m xs cs) in *.
-    destruct (parse_head t (flat_map block cs ++ [dir_goodbye t cs]) f p rest Hg) as (le & E).
-    { destruct cs as [|[name c] r]; cbn; exact I. }
+    destruct (parse_head ord t (flat_map block (kept cs) ++ [dir_goodbye t (kept cs)]) f p rest Hg) as (le & E).
+    { destruct (kept cs) as [|[name c] r]; cbn; exact I. }
     rewrite E. clear E. cbv zeta.
     replace (type_bits t) with S_IFDIR by reflexivity.
     replace (S_IFDIR =? S_IFREG) with false by reflexivity.
@@ -611,30 +680,32 @@ Proof.
     replace (S_IFDIR =? S_IFIFO) with false by reflexivity.
     replace (S_IFDIR =? S_IFSOCK) with false by reflexivity.
     replace (S_IFDIR =? S_IFDIR) with true by reflexivity. cbn [orb].
-    inversion Hg as [? ? ? _ _ _ Hcs Hasc| | |]; subst.
+    destruct (good_dir_kept _ _ _ _ Hg) as [Hcs Hasc].
+    apply Forall_kept in IH.
     unfold dir_goodbye at 1. cbv zeta.
     rewrite !app_length in Hf. cbn [length] in Hf. unfold head_elems in Hf. cbn [length] in Hf.
-    rewrite (parse_children_ok cs IH Hcs None Hasc f) by lia.
+    rewrite (parse_children_ok ord (kept cs) IH Hcs None Hasc f) by lia.
     cbn [app].
-    replace (p + elems_len (head_elems t) + blocks_len cs) with (p + (elems_len (head_elems t) + blocks_len cs)) by lia.
-    rewrite (check_dir_goodbye t cs p).
+    replace (p + elems_len (head_elems t) + blocks_len (kept cs)) with (p + (elems_len (head_elems t) + blocks_len (kept cs))) by lia.
+    rewrite (check_dir_goodbye t (kept cs) p).
     rewrite seen_children. f_equal. f_equal.
-    fold (dir_goodbye t cs). rewrite !elems_len_app, <- blocks_len_elems. cbn [elems_len fold_right].
-    generalize (enc_len (dir_goodbye t cs)) (blocks_len cs) (elems_len (head_elems t)). intros a b c.
-    apply f_equal2; [reflexivity|lia].
+    fold (dir_goodbye t (kept cs)). rewrite !elems_len_app, <- blocks_len_elems. cbn [elems_len fold_right].
+    generalize (enc_len (dir_goodbye t (kept cs))) (blocks_len (kept cs)) (elems_len (head_elems t)). intros a b c.
+    apply f_equal2; [|lia].
+    unfold t. cbn [casync_view]. rewrite view_children. reflexivity.
   - (* regular file *)
-    unfold tar_model in *. cbn [tar_node fst] in *. destruct fuel as [|f]; [lia|].
+    unfold tar_model in *. cbn [tar_node tar_node_v fst] in *. destruct fuel as [|f]; [lia|].
     set (t := NFile m xs d) in *.
-    destruct (parse_head t [Payload (mkHeader (16 + lenN d) CaFormatPayload) d] f p rest Hg I) as (le & E).
+    destruct (parse_head ord t [Payload (mkHeader (16 + lenN d) CaFormatPayload) d] f p rest Hg I) as (le & E).
     rewrite E. clear E. cbv zeta.
     replace (type_bits t) with S_IFREG by reflexivity.
     replace (S_IFREG =? S_IFREG) with true by reflexivity.
     cbn [posd app]. rewrite elems_len_app. cbn [elems_len fold_right].
     apply f_equal. apply f_equal2; [apply f_equal2; [reflexivity|lia]|reflexivity].
   - (* symlink *)
-    unfold tar_model in *. cbn [tar_node fst] in *. destruct fuel as [|f]; [lia|].
+    unfold tar_model in *. cbn [tar_node tar_node_v fst] in *. destruct fuel as [|f]; [lia|].
     set (t := NSymlink m xs tg) in *.
-    destruct (parse_head t [Symlink (mkHeader (16 + lenN tg + 1) CaFormatSymlink) tg] f p rest Hg I) as (le & E).
+    destruct (parse_head ord t [Symlink (mkHeader (16 + lenN tg + 1) CaFormatSymlink) tg] f p rest Hg I) as (le & E).
     rewrite E. clear E. cbv zeta.
     replace (type_bits t) with S_IFLNK by reflexivity.
     replace (S_IFLNK =? S_IFREG) with false by reflexivity.
@@ -644,9 +715,9 @@ Proof.
     rewrite elems_len_app. cbn [elems_len fold_right].
     apply f_equal. apply f_equal2; [apply f_equal2; [reflexivity|lia]|reflexivity].
   - (* device *)
-    unfold tar_model in *. cbn [tar_node fst] in *. destruct fuel as [|f]; [lia|].
+    unfold tar_model in *. cbn [tar_node tar_node_v fst] in *. destruct fuel as [|f]; [lia|].
     set (t := NDevice m xs c ma mi) in *.
-    destruct (parse_head t [Device (mkHeader 32 CaFormatDevice) ma mi] f p rest Hg I) as (le & E).
+    destruct (parse_head ord t [Device (mkHeader 32 CaFormatDevice) ma mi] f p rest Hg I) as (le & E).
     rewrite E. clear E. cbv zeta.
     replace (type_bits t) with (if c then S_IFCHR else S_IFBLK) by reflexivity.
     destruct c.
@@ -671,13 +742,13 @@ Qed.
 
 (* Every archive tar() writes for a good tree is accepted by the format-rule reader, which
    returns the tree (xattr values as casync reads them). *)
-Theorem tar_wellformed_proof : forall t, good t -> snd (tar_node t) < two64 ->
-  validate (tar_bytes t) = Some (casync_view t).
+Theorem tar_wellformed_proof : forall ord t, good ord t -> snd (tar_node t) < two64 ->
+  validate ord (tar_bytes t) = Some (casync_view t).
 Proof.
-  intros t Hg Hb. unfold validate, tar_bytes.
-  rewrite (scan_encode _ (tar_wf t Hg Hb)) by (pose proof (elems_count_le (tar_model t)); lia).
+  intros ord t Hg Hb. unfold validate, tar_bytes.
+  rewrite (scan_encode _ (tar_wf ord t Hg Hb)) by (pose proof (elems_count_le (tar_model t)); lia).
   rewrite posd_length.
-  pose proof (parse_ok t Hg (S (length (tar_model t))) 0 [] ltac:(lia)) as E.
+  pose proof (parse_ok ord t Hg (S (length (tar_model t))) 0 [] ltac:(lia)) as E.
   rewrite app_nil_r in E. rewrite E. reflexivity.
 Qed.
 
@@ -720,26 +791,27 @@ Proof. exact (enc_len_goodbye h items). Qed.
 
 Theorem tar_offsets_proof : forall m xs cs,
   let t := NDir m xs cs in
-  let before := encode_elems (head_elems t) ++ flat_map block_bytes cs in
+  let ks := kept cs in
+  let before := encode_elems (head_elems t) ++ flat_map block_bytes ks in
   let G := lenN before in
   exists table tail_size h,
     tar_bytes t = before ++ encode_elem (Goodbye h (table ++ [(G, tail_size, CaFormatGoodbyeTailMarker)])) /\
     tail_size = lenN (encode_elem (Goodbye h (table ++ [(G, tail_size, CaFormatGoodbyeTailMarker)]))) /\
     h_size h = tail_size /\
-    Permutation table (true_items G (lenN (encode_elems (head_elems t))) cs) /\
+    Permutation table (true_items G (lenN (encode_elems (head_elems t))) ks) /\
     snd (tar_node t) = lenN (tar_bytes t).
 Proof.
-  intros m xs cs t before G.
-  assert (EG : G = elems_len (head_elems t) + blocks_len cs).
+  intros m xs cs t ks before G.
+  assert (EG : G = elems_len (head_elems t) + blocks_len ks).
   { unfold G, before. rewrite lenN_app, <- elems_len_encode, <- blocks_bytes_encode, <- elems_len_encode, <- blocks_len_elems. reflexivity. }
-  exists (dir_table t cs), (16 + N.of_nat (length (dir_table t cs)) * 24 + 24),
-         (mkHeader (16 + N.of_nat (length (dir_table t cs ++ [(G, 16 + N.of_nat (length (dir_table t cs)) * 24 + 24, CaFormatGoodbyeTailMarker)])) * 24) CaFormatGoodbye).
+  exists (dir_table t ks), (16 + N.of_nat (length (dir_table t ks)) * 24 + 24),
+         (mkHeader (16 + N.of_nat (length (dir_table t ks ++ [(G, 16 + N.of_nat (length (dir_table t ks)) * 24 + 24, CaFormatGoodbyeTailMarker)])) * 24) CaFormatGoodbye).
   split; [|split; [|split; [|split]]].
   - unfold tar_bytes, tar_model, t. rewrite tar_node_dir. cbn [fst].
-    rewrite !encode_elems_app, blocks_bytes_encode. fold t. unfold before. rewrite <- app_assoc. do 2 f_equal.
+    rewrite !encode_elems_app, blocks_bytes_encode. fold t. fold ks. unfold before. rewrite <- app_assoc. do 2 f_equal.
     unfold dir_goodbye. cbv zeta. rewrite <- EG. cbn [encode_elems flat_map]. rewrite app_nil_r. reflexivity.
-  - rewrite lenN_goodbye, app_length. cbn [length]. clear EG. subst G before t. unfold gitem, item. generalize (@length (N * N * N) (dir_table (NDir m xs cs) cs)). intros k. lia.
-  - cbn [h_size]. rewrite app_length. cbn [length]. clear EG. subst G before t. unfold gitem, item. generalize (@length (N * N * N) (dir_table (NDir m xs cs) cs)). intros k. lia.
+  - rewrite lenN_goodbye, app_length. cbn [length]. clear EG. clearbody ks. subst G before t. unfold gitem, item. generalize (@length (N * N * N) (dir_table (NDir m xs cs) ks)). intros k. lia.
+  - cbn [h_size]. rewrite app_length. cbn [length]. clear EG. clearbody ks. subst G before t. unfold gitem, item. generalize (@length (N * N * N) (dir_table (NDir m xs cs) ks)). intros k. lia.
   - unfold dir_table. cbv zeta. rewrite true_items_eq, <- elems_len_encode, EG.
     apply (proj1 (goodbye_table_perm _)).
   - rewrite tar_counter. apply elems_len_encode.
@@ -752,16 +824,29 @@ Definition ex_fifo_tree : node := NDir ex_meta [] [([97], NOther ex_meta [] fals
 (* a file with the xattr user.a = "v" *)
 Definition ex_xattr_tree : node := NDir ex_meta [] [([97], NFile ex_meta [([117; 115; 101; 114; 46; 97], [118])] [1; 2; 3])].
 
-Lemma tar_fifo_refuted_proof : validate (tar_bytes ex_fifo_tree) = None.
+Lemma good_ex_meta : good_meta ex_meta.
+Proof. unfold good_meta, ex_meta, w64; cbn; lia. Qed.
+
+(* before commit 0d1baa3 the FIFO left a FILENAME without ENTRY; now it is simply left out *)
+Lemma tar_fifo_prefix_refuted_proof : validate true (tar_bytes_v TarPreSkipFix ex_fifo_tree) = None.
 Proof. vm_compute. reflexivity. Qed.
 
-Lemma tar_xattr_refuted_proof : good ex_xattr_tree /\ validate (tar_bytes ex_xattr_tree) <> Some ex_xattr_tree.
+Lemma tar_fifo_fixed_proof : good true ex_fifo_tree /\
+  validate true (tar_bytes ex_fifo_tree) = Some (NDir ex_meta [] [([98], NFile ex_meta [] [])]).
+Proof.
+  split; [|vm_compute; reflexivity].
+  apply good_dir; [exact good_ex_meta|constructor|exact I| |intros _; cbn; auto].
+  constructor; [|constructor; [|constructor]]; cbn [fst snd].
+  - split; [reflexivity|left; reflexivity].
+  - split; [reflexivity|right]. apply good_file; [exact good_ex_meta|constructor|exact I|cbn; lia].
+Qed.
+
+Lemma tar_xattr_refuted_proof : good true ex_xattr_tree /\ validate true (tar_bytes ex_xattr_tree) <> Some ex_xattr_tree.
 Proof.
   split.
-  - assert (Hm : good_meta ex_meta) by (unfold good_meta, ex_meta, w64; cbn; lia).
-    apply good_dir; [exact Hm|constructor|exact I| |cbn; auto].
-    constructor; [|constructor]. cbn [fst snd]. split; [reflexivity|].
-    apply good_file; [exact Hm| |cbn; auto|cbn; lia].
+  - apply good_dir; [exact good_ex_meta|constructor|exact I| |intros _; cbn; auto].
+    constructor; [|constructor]. cbn [fst snd]. split; [reflexivity|right].
+    apply good_file; [exact good_ex_meta| |cbn; auto|cbn; lia].
     constructor; [|constructor]. unfold good_xattr. cbn [fst snd]. split; [discriminate|]. split; [reflexivity|cbn; lia].
   - vm_compute. discriminate.
 Qed.
